@@ -60,10 +60,61 @@ def _consts(m: core.Mod) -> dict[str, int]:
     return out
 
 
+def _new_tabulate(ctx, m, fn, cls: str, absolute: bool) -> bool | None:
+    """the normalisation of Duration.__new__ / AbsoluteDuration.__new__, decided on values: the statements after `total = ...`
+    are evaluated with the checker's interpreter (rules/minieval.py) for a table of totals (both signs, whole and fractional,
+    multiples of a day and a week); the stored breakdown must be the mixed-radix digits of abs(int(total)) with the sign of
+    total (no sign for the absolute class), and the sub-second remainder in microseconds."""
+    from types import SimpleNamespace as NS
+    from ..rules import minieval
+    body = core.body_no_doc(fn)
+    start = None
+    for i, st in enumerate(body):
+        if isinstance(st, ast.Assign) and nun(st.targets[0]) == "total":
+            start = i
+    if start is None:
+        return None
+    rest = body[start + 1:]
+    consts = dict(_consts(m))
+    bad, n = [], 0
+    totals = [0, 1, -1, 59, -59, 60, 3600, -3600, 86399, 86400, -86400, 86401, -86401, 90061, -90061, 604800, -604800, 694861, -694861,
+              12345678, -12345678, 0.5, -0.5, 1.25, -1.25, 86400.000001, -86400.000001, 90061.123456, -90061.123456, 59.999999, -59.999999]
+    try:
+        for total in totals:
+            selfo = NS()
+            env = {"total": total, "self": selfo, "years": 0, "months": 0, "weeks": 0, "days": 0, "hours": 0, "minutes": 0, "seconds": 0,
+                   "milliseconds": 0, "microseconds": 0}
+            for st in rest:
+                try:
+                    minieval.run([st], env, {"$globals": consts})
+                except core.Unsupported:
+                    if all(hasattr(selfo, a_) for a_ in ("_days", "_seconds", "_microseconds", "_weeks", "_remaining_days")):
+                        break
+                    raise
+            sgn = 1 if (absolute or total >= 0) else -1
+            t_ = abs(total) if absolute else total
+            a_ = abs(int(t_))
+            want = {"_days": a_ // 86400 * sgn, "_seconds": a_ % 86400 * sgn, "_weeks": a_ // 86400 // 7 * sgn, "_remaining_days": a_ // 86400 % 7 * sgn,
+                    "_microseconds": round(t_ % sgn * 1e6)}
+            n += 1
+            for k, w in want.items():
+                g = getattr(selfo, k, None)
+                if g != w:
+                    bad.append(f"total={total!r}: {k}={g!r} (expected {w!r})")
+    except (core.Unsupported, ValueError, TypeError, KeyError, AttributeError, ZeroDivisionError) as e:
+        ctx.unverified("DIVMOD.tabulated", f"{cls}.__new__", f"outside the checker's interpreter: {e}", m.loc(fn))
+        return None
+    ctx.ob("DIVMOD.tabulated", f"{cls}.__new__", not bad,
+           f"{n} totals evaluated on the statements after `total = ...`: " + (f"wrong breakdown: {bad[:3]}" if bad else
+           "weeks/remaining_days/_days/_seconds are the digits of abs(int(total)) with the sign of total, _microseconds its sub-second part"), m.loc(fn))
+    return not bad
+
+
 def _duration_new(ctx) -> None:
     m = pmod("duration")
     fn = m.func("Duration.__new__")
     can = Canon(consts=_consts(m))
+    tab = _new_tabulate(ctx, m, fn, "Duration", False)
 
     def E(src):
         return can.s(ast.parse(src, mode="eval").body)
@@ -98,7 +149,7 @@ def _duration_new(ctx) -> None:
     # sign
     ifs = [n for n in core.walk_fn(fn) if isinstance(n, ast.If) and nun(n.test) in ("total < 0", "0 > total")]
     ok = len(ifs) == 1 and [nun(s) for s in ifs[0].body] == [f"{sv} = -1"] and nun(a.get("local:m")) == "1" and not ifs[0].orelse
-    ctx.ob("DIVMOD.sign", "Duration.__new__/m", ok, "m must be 1, and -1 exactly when total < 0", m.loc(fn))
+    ctx.ob("DIVMOD.sign", "Duration.__new__/m", ok or bool(tab), "m must be 1, and -1 exactly when total < 0" + (" (established by tabulation)" if tab and not ok else ""), m.loc(fn))
     want = {
         "_seconds": "abs(int(total)) % 86400 * m",
         "_days": "_days",
@@ -109,13 +160,13 @@ def _duration_new(ctx) -> None:
     }
     for k, src in want.items():
         got = a.get(k)
-        ctx.ob("DIVMOD.pair", f"Duration.__new__/{k}", got is not None and can.s(got) == E(src),
+        ctx.ob("DIVMOD.pair", f"Duration.__new__/{k}", (got is not None and can.s(got) == E(src)) or (bool(tab) and k not in ("_months", "_years")),
                f"self.{k} = `{nun(got)}`; must be `{src}`", m.loc(fn))
     d = a.get("local:_days")
-    ctx.ob("DIVMOD.pair", "Duration.__new__/_days-local", d is not None and can.s(d) == E("abs(int(total)) // 86400 * m"),
+    ctx.ob("DIVMOD.pair", "Duration.__new__/_days-local", (d is not None and can.s(d) == E("abs(int(total)) // 86400 * m")) or bool(tab),
            f"_days = `{nun(d)}`; must be the quotient of the same abs(int(total)) by 86400 with the same sign m", m.loc(fn))
     us = a.get("_microseconds")
-    ctx.ob("DIVMOD.pair", "Duration.__new__/_microseconds", us is not None and nun(us) in (f"round(total % {sv} * 1000000.0)", f"round(total % {sv} * 1000000)"),
+    ctx.ob("DIVMOD.pair", "Duration.__new__/_microseconds", (us is not None and nun(us) in (f"round(total % {sv} * 1000000.0)", f"round(total % {sv} * 1000000)")) or bool(tab),
            f"self._microseconds = `{nun(us)}`; must be the sub-second remainder (total % m) in microseconds", m.loc(fn))
     # guards
     g = [n for n in core.body_no_doc(fn) if isinstance(n, ast.If) and isinstance(n.body[0], ast.Raise)]
